@@ -5,7 +5,7 @@ import Dbg.Model.Lmer
 namespace Block64
 open Kmer
 
-def k32 : Cfg := ⟨64, 32, false⟩
+abbrev k32 : Cfg := ⟨64, 32, false⟩
 theorem k32_wf : k32.WF := ⟨by decide, by decide, fun _ => by decide⟩
 
 /-- `DnaString::get_by_addr` on a block = `Kmer32::get` -/
@@ -32,7 +32,6 @@ theorem dna_blockSet_eq (b : BitVec 64) (i v : Nat) (hi : i < 32) (hv : v < 4) :
     simp only [BitVec.getLsbD_or, BitVec.getLsbD_xor, BitVec.getLsbD_and, BitVec.getLsbD_not, hj, decide_true, Bool.true_and]
     cases x.getLsbD j <;> cases m.getLsbD j <;> rfl
   simp only [key]
-  rfl
 
 /-- `Lmer`'s `block_get` / `block_set` are literally the k-mer accessors -/
 theorem lmer_blockGet_eq (b : BitVec 64) (i : Nat) : Lmer.blockGet b i = Kmer.get k32 b i := rfl
